@@ -4,7 +4,9 @@ Proof (coq/theories/C04): continuous-domain facts about what every kernel sample
 transfer function = paraxial expansion of the angular spectrum, error |k z| sin^4 / 2), Helmholtz and paraxial dispersion,
 forward_direction (all phases grow with z), the Fresnel pair (impulse response k/2z <-> transfer function -pi lam z, prefactor
 1/(i lam z), opposite signs), Gaussian-beam complex-width algebra (gauss_q: the transfer function maps s to s + i lam z/pi;
-width, amplitude, curvature sign and radius of the closed form; even/odd in z), lens_focus (lens + chirp cancel iff z = +f),
+width, amplitude, curvature sign and radius of the closed form; even/odd in z), the closed form solves the paraxial wave equation
+u_z = (i/2k)(u_xx + u_yy) with the Gaussian waist as initial value and so does every plane wave times the Fresnel transfer function
+(Coquelicot derivatives), lens_focus (lens + chirp cancel iff z = +f),
 Gaussian beam through the lens: I(+f) = (1 + 4 (zR/f)^2) I(-f), spot w0 f / zR; regression lemmas for the repaired defects.
 Tie B1 (every run): the exponents / prefactors / weights traced from the current sources of both APIs (transfer functions:
 Run.GenWaveK via the shared wave recipe; lens phases and impulse responses: Run.GenC04 via tracer/recipes/c04.py) are proved,
@@ -13,7 +15,9 @@ incl. "lens phase + chirp of distance f = 0 at every pixel" and "quadrature weig
 Tie B2 (every run): the closed-form predictions the oracles compare against are evaluated inside Coq (q_predict, proved equal
 to the real model) on the exact rational inputs of the run.
 Direct oracles: Gaussian beams and lens x aperture through every method x both APIs inside the common validity window.
-PARTIAL: discretisation error is only observed; the Fresnel / Gaussian Fourier integrals are cited.
+PARTIAL: discretisation error is only observed; the Fresnel-pair Fourier integral (impulse response <-> transfer function) and
+the Fourier synthesis / uniqueness step (the solution of the paraxial equation with Gaussian data IS the superposition of the
+propagated plane waves) are cited.
 """
 import fractions, json, math
 import numpy as np
@@ -25,7 +29,8 @@ PROPS = ['C04_sqrt_paraxial', 'C04_as_tf_close', 'C04_as_tf_on_grid', 'C04_as_di
          'C04_forward_direction', 'C04_on_axis_wavenumber', 'C04_ir_tf_pair_coeff', 'C04_ir_tf_pair_prefactor', 'C04_ir_tf_signs',
          'C04_ir_sample_modulus', 'C04_gauss_q', 'C04_gauss_q_waist', 'C04_gauss_steps_compose', 'C04_gauss_inverse_width',
          'C04_gauss_width', 'C04_gauss_amplitude', 'C04_gauss_curv_sign', 'C04_gauss_radius', 'C04_gauss_even_odd',
-         'C04_gauss_conj_overlap', 'C04_lens_focus', 'C04_lens_gauss_contrast', 'C04_lens_gauss_gain', 'C04_lens_gauss_spot',
+         'C04_gauss_conj_overlap', 'C04_gauss_solves_paraxial', 'C04_gauss_initial', 'C04_gauss_field_parts',
+         'C04_mode_is_transfer_function', 'C04_mode_solves_paraxial', 'C04_lens_focus', 'C04_lens_gauss_contrast', 'C04_lens_gauss_gain', 'C04_lens_gauss_spot',
          'C04_tf_legacy_backwards', 'C04_lens_focus_conjugated', 'C04_lens_legacy_focus', 'C04_lens_gauss_contrast_legacy',
          'C04_q_predict_sound']
 T_TF = ['Angular Spectrum', 'Bandlimited Angular Spectrum', 'Transfer Function Fresnel']
@@ -488,7 +493,8 @@ def run(ctx):
                 'methods additionally on bare even / odd / non-square grids at 0.15..2 zc; lens x (Gaussian, circular, square) aperture with zc <= |f| <= 2 zc, '
                 'both signs of f; non-trivial = every case; distinct by full input')
     ctx.trusted += ['tracer (tracer/shim.py, opshim.py, recipes/wave.py, recipes/c04.py): shape-generic code traced at a 3x4 instance; validated by the numeric self-checks',
-                    'cited, not proved: the Fresnel / Gaussian Fourier integral FT[exp(i a r^2)](f) = (i pi / a) exp(-i pi^2 f^2 / a); its coefficient algebra is proved',
+                    'cited, not proved: the Fresnel-pair Fourier integral FT[exp(i a r^2)](f) = (i pi / a) exp(-i pi^2 f^2 / a) (its coefficient algebra is proved) and '
+                    'Fourier synthesis / uniqueness for the paraxial wave equation (proved: the closed form and every transfer-function-propagated plane wave solve it)',
                     'discretisation error is bounded only empirically: L2 %g, amplitude %g, width %g, curvature %g, pairwise %g, focus contrast >= %g'
                     % (TOL_L2, TOL_AMP, TOL_W, TOL_BETA, TOL_PAIR, MIN_CONTRAST),
                     'sub-pixel registration and a global phase are removed before fields are compared: the frequency grid linspace(-1/2dx, 1/2dx, n) of the '
